@@ -215,3 +215,10 @@ Proof.
     destruct j; [reflexivity|]. cbn [skipn nth]. apply IHd. lia. }
   rewrite (G 0) by lia. rewrite Z.add_0_r. reflexivity.
 Qed.
+
+Lemma wadd_not_oob a b : wadd a b <> OOB.
+Proof. unfold wadd; congruence. Qed.
+Lemma cmul_not_oob a b : cmul a b <> OOB.
+Proof. unfold cmul; destruct (a * b <? USIZE); congruence. Qed.
+Lemma cmul_ok a b r : cmul a b = Ok r -> r = a * b /\ a * b < USIZE.
+Proof. unfold cmul; destruct (a * b <? USIZE) eqn:E; [intros [= <-]; lia|discriminate]. Qed.
